@@ -1466,3 +1466,46 @@ package ro
 //@   maypanic
 //@   track destination.*
 //@   ensures [the-last-window-is-closed-and-the-completion-delivered-in-one-step|C05,C20] heldat(muEmit, destination.ANY) && called(destination.CompleteWithContext)
+
+// Zip family: each source is wired to its own queue and completion flag, and to the two locks in their roles
+// (state lock first, emit lock second): a swapped pair leaves a queue without a common lock.
+
+//@ func ZipWith1$1$1
+//@   props C05 C13 C02
+//@   binds subscriberCtx destination obsA obsB
+//@   calls NewSubscription zipInnerSubscription
+//@   params subscriberCtx destination
+//@   track call.zipInnerSubscription
+//@   ensures [each-source-has-its-own-queue-and-flag-under-the-shared-locks|C05,C13,C02] trace(call.zipInnerSubscription(subscriberCtx, obsA, addr(mu), addr(muEmit), addr(valueA), addr(completedA), _, destination, res(call.NewSubscription)), call.zipInnerSubscription(subscriberCtx, obsB, addr(mu), addr(muEmit), addr(valueB), addr(completedB), _, destination, res(call.NewSubscription)))
+
+//@ func ZipWith2$1$1
+//@   props C05 C13 C02
+//@   binds subscriberCtx destination obsA obsB obsC
+//@   calls NewSubscription zipInnerSubscription
+//@   params subscriberCtx destination
+//@   track call.zipInnerSubscription
+//@   ensures [each-source-has-its-own-queue-and-flag-under-the-shared-locks|C05,C13,C02] trace(call.zipInnerSubscription(subscriberCtx, obsA, addr(mu), addr(muEmit), addr(valueA), addr(completedA), _, destination, res(call.NewSubscription)), call.zipInnerSubscription(subscriberCtx, obsB, addr(mu), addr(muEmit), addr(valueB), addr(completedB), _, destination, res(call.NewSubscription)), call.zipInnerSubscription(subscriberCtx, obsC, addr(mu), addr(muEmit), addr(valueC), addr(completedC), _, destination, res(call.NewSubscription)))
+
+//@ func ZipWith3$1$1
+//@   props C05 C13 C02
+//@   binds subscriberCtx destination obsA obsB obsC obsD
+//@   calls NewSubscription zipInnerSubscription
+//@   params subscriberCtx destination
+//@   track call.zipInnerSubscription
+//@   ensures [each-source-has-its-own-queue-and-flag-under-the-shared-locks|C05,C13,C02] trace(call.zipInnerSubscription(subscriberCtx, obsA, addr(mu), addr(muEmit), addr(valueA), addr(completedA), _, destination, res(call.NewSubscription)), call.zipInnerSubscription(subscriberCtx, obsB, addr(mu), addr(muEmit), addr(valueB), addr(completedB), _, destination, res(call.NewSubscription)), call.zipInnerSubscription(subscriberCtx, obsC, addr(mu), addr(muEmit), addr(valueC), addr(completedC), _, destination, res(call.NewSubscription)), call.zipInnerSubscription(subscriberCtx, obsD, addr(mu), addr(muEmit), addr(valueD), addr(completedD), _, destination, res(call.NewSubscription)))
+
+//@ func ZipWith4$1$1
+//@   props C05 C13 C02
+//@   binds subscriberCtx destination obsA obsB obsC obsD obsE
+//@   calls NewSubscription zipInnerSubscription
+//@   params subscriberCtx destination
+//@   track call.zipInnerSubscription
+//@   ensures [each-source-has-its-own-queue-and-flag-under-the-shared-locks|C05,C13,C02] trace(call.zipInnerSubscription(subscriberCtx, obsA, addr(mu), addr(muEmit), addr(valueA), addr(completedA), _, destination, res(call.NewSubscription)), call.zipInnerSubscription(subscriberCtx, obsB, addr(mu), addr(muEmit), addr(valueB), addr(completedB), _, destination, res(call.NewSubscription)), call.zipInnerSubscription(subscriberCtx, obsC, addr(mu), addr(muEmit), addr(valueC), addr(completedC), _, destination, res(call.NewSubscription)), call.zipInnerSubscription(subscriberCtx, obsD, addr(mu), addr(muEmit), addr(valueD), addr(completedD), _, destination, res(call.NewSubscription)), call.zipInnerSubscription(subscriberCtx, obsE, addr(mu), addr(muEmit), addr(valueE), addr(completedE), _, destination, res(call.NewSubscription)))
+
+//@ func ZipWith5$1$1
+//@   props C05 C13 C02
+//@   binds subscriberCtx destination obsA obsB obsC obsD obsE obsF
+//@   calls NewSubscription zipInnerSubscription
+//@   params subscriberCtx destination
+//@   track call.zipInnerSubscription
+//@   ensures [each-source-has-its-own-queue-and-flag-under-the-shared-locks|C05,C13,C02] trace(call.zipInnerSubscription(subscriberCtx, obsA, addr(mu), addr(muEmit), addr(valueA), addr(completedA), _, destination, res(call.NewSubscription)), call.zipInnerSubscription(subscriberCtx, obsB, addr(mu), addr(muEmit), addr(valueB), addr(completedB), _, destination, res(call.NewSubscription)), call.zipInnerSubscription(subscriberCtx, obsC, addr(mu), addr(muEmit), addr(valueC), addr(completedC), _, destination, res(call.NewSubscription)), call.zipInnerSubscription(subscriberCtx, obsD, addr(mu), addr(muEmit), addr(valueD), addr(completedD), _, destination, res(call.NewSubscription)), call.zipInnerSubscription(subscriberCtx, obsE, addr(mu), addr(muEmit), addr(valueE), addr(completedE), _, destination, res(call.NewSubscription)), call.zipInnerSubscription(subscriberCtx, obsF, addr(mu), addr(muEmit), addr(valueF), addr(completedF), _, destination, res(call.NewSubscription)))
